@@ -86,6 +86,23 @@ class Path:
         finally:
             self.solver.pop()
 
+    def concretize(self, term):
+        """If the path condition forces an Int term to one value, return
+        it (else None)."""
+        self.solver.push()
+        try:
+            if safe_check(self.solver, self.budget.branch_ms) != z3.sat:
+                return None
+            v = self.solver.model().eval(term, model_completion=True)
+            if not z3.is_int_value(v):
+                return None
+            self.solver.add(term != v)
+            if safe_check(self.solver, self.budget.branch_ms) == z3.unsat:
+                return v.as_long()
+            return None
+        finally:
+            self.solver.pop()
+
     def decide(self, cond):
         i = len(self.taken)
         if i < len(self.prefix):
